@@ -639,3 +639,59 @@ Proof.
     + intros (r & Hr & _). discriminate.
     + intros (fd & Hin & Hcov). eapply find_none in Ef; [|exact Hin]. cbv beta in Ef. congruence.
 Qed.
+
+(* ------------------------------------------------------------------ G. no panic, fuel suffices *)
+Lemma dec_clean_g P (Ht : forall off bs, tame bs (P off bs)) : forall n it, (length (it_bytes it) <= n)%nat ->
+  Forall (fun x => x <> BadPanic /\ x <> BadFuel) (dec_g P it).
+Proof.
+  induction n as [|n IH]; intros it Hn; rewrite (dec_unfold_g P Ht);
+    pose proof (iter_next_cases_g P Ht it) as Hc;
+    destruct (iter_next_g P it) as [[[i|]|e| |] it']; try contradiction;
+    try (constructor; [split; discriminate|]); try constructor.
+  - lia.
+  - apply IH. lia.
+Qed.
+
+Lemma no_panic_sl dbg cp c aa fd cx :
+  cap_full (max_stack cp) 0 = false ->
+  snd (fst (fde_rows_sl dbg cp c aa fd cx)) <> Crash /\ snd (fst (fde_rows_sl dbg cp c aa fd cx)) <> Fuel.
+Proof.
+  intros Hc. destruct (valid_asize (ci_asz (fd_cie fd))) eqn:Hv;
+    [|rewrite (fde_rows_sl_invalid dbg cp c aa fd cx Hv); cbn; split; discriminate].
+  destruct (model_eq_spec_sl dbg cp c aa fd cx Hv Hc) as (_ & H2). rewrite H2.
+  unfold spec_of_sl, run_spec_lim, fde_items_sl. cbv zeta.
+  set (f := fde_in_of (sc_be c) aa fd).
+  assert (Ht : forall off bs, tame bs (parse_insn_sl dbg c aa fd off bs)).
+  { intros off bs. apply parse_insn_sl_tame. apply valid_asize_asz_ok. exact Hv. }
+  pose proof (dec_clean dbg (f_dparams f) _ {| it_off := f_cie_off f; it_bytes := f_cie f |} (le_n _)) as Dc.
+  pose proof (dec_clean_g _ Ht _ {| it_off := CfiRd.off (fd_instr fd); it_bytes := win (fd_instr fd) |} (le_n _)) as Df.
+  change (dec dbg (f_dparams f) {| it_off := f_cie_off f; it_bytes := f_cie f |})
+    with (decode dbg (f_dparams f) (f_cie_off f) (f_cie f)) in Dc.
+  change (dec_g (parse_insn_sl dbg c aa fd) {| it_off := CfiRd.off (fd_instr fd); it_bytes := win (fd_instr fd) |})
+    with (decode_g (parse_insn_sl dbg c aa fd) (CfiRd.off (fd_instr fd)) (win (fd_instr fd))) in Df.
+  pose proof (spec_run_clean cp (sparams_of f) None 0 _ init_state Dc) as Hcl.
+  destruct (spec_run cp (sparams_of f) None 0 init_state (decode dbg (f_dparams f) (f_cie_off f) (f_cie f)))
+    as [rows_c [o_c sc]]. cbn [fst snd] in Hcl.
+  destruct o_c; cbn [snd]; try (split; discriminate); try (destruct Hcl; congruence).
+  destruct (guard_cases cp (Some (s_rules sc)) (with_loc (f_init f) sc)) as [Hg|[Hg|Hg]]; rewrite Hg;
+    try (cbn; split; discriminate).
+  pose proof (spec_run_clean cp (sparams_of f) (Some (s_rules sc))
+                (spec_end (f_asize f) (f_init f) (f_range f)) _ (with_loc (f_init f) sc) Df) as Hcl2.
+  destruct (spec_run cp (sparams_of f) (Some (s_rules sc)) (spec_end (f_asize f) (f_init f) (f_range f))
+              (with_loc (f_init f) sc) (decode_g (parse_insn_sl dbg c aa fd) (CfiRd.off (fd_instr fd)) (win (fd_instr fd))))
+    as [rows [o sf]].
+  exact Hcl2.
+Qed.
+
+Lemma uwi_sl_total_lem dbg cp c aa sec cx a :
+  asz_ok (sc_asz c) -> cap_full (max_stack cp) 0 = false ->
+  fst (unwind_info_for_address_sl dbg cp c aa sec cx a) <> Panic /\
+  fst (unwind_info_for_address_sl dbg cp c aa sec cx a) <> OutOfFuel.
+Proof.
+  intros Hc Hcap. rewrite uwi_sl_compose.
+  pose proof (fde_for_address_safe_lem dbg c sec a Hc) as [S1 S2].
+  destruct (fde_for_address dbg c sec a) as [fd|e| |]; try congruence; [|split; discriminate].
+  unfold pick. destruct (find _ _); [split; discriminate|].
+  pose proof (no_panic_sl dbg cp c aa fd cx Hcap) as [N1 N2].
+  destruct (snd (fst (fde_rows_sl dbg cp c aa fd cx))); cbn [outcome_err]; try congruence; split; discriminate.
+Qed.
